@@ -75,6 +75,13 @@ RULES = {
         replace='{ let mut i__ = coefs.len(); while i__ > 0 { i__ -= 1; let coef = &coefs[i__]; $BODY } } result }',
         why='Rev has no vstd model',
         assumes='std semantics of slice::Iter::rev(): elements visited from the last to the first'),
+    # ---- stark/oods.rs
+    'R2_enumerate_points': dict(
+        kind='R2',
+        pattern='for (i, &point) in points.iter().enumerate() {',
+        replace='for i in 0..points.len() { let point = points[i];',
+        why='Enumerate and tuple/reference patterns in `for` have no vstd model',
+        assumes='std semantics of slice::Iter::enumerate(): yields (i, &s[i]) for i = 0..len in order; `&point` copies the element'),
     # ---- stark/queries.rs
     'R2_generate_queries': dict(
         kind='R2',
